@@ -201,8 +201,12 @@ func (e Endpoint) RefersTo(object string) bool {
 func (e Endpoint) Hash() []byte {
 	hash := sha256.New()
 
+	// the separators ensure that different settings cannot result in the same sequence of bytes
+	// (like a header name continued by its value compared to a longer name with a shorter value)
 	hash.Write(stringx.ToBytes(e.URL))
+	hash.Write([]byte{0})
 	hash.Write(stringx.ToBytes(e.Method))
+	hash.Write([]byte{0})
 
 	// the iteration order over a map is random, the hash must however be stable
 	headerNames := make([]string, 0, len(e.Headers))
@@ -215,7 +219,9 @@ func (e Endpoint) Hash() []byte {
 	buf := bytes.NewBufferString("")
 	for _, k := range headerNames {
 		buf.Write(stringx.ToBytes(k))
+		buf.WriteByte(0)
 		buf.Write(stringx.ToBytes(e.Headers[k]))
+		buf.WriteByte(0)
 	}
 
 	hash.Write(buf.Bytes())
